@@ -76,6 +76,9 @@ func DrawConfig(t *rapid.T, p *Profile) Config {
 		cfg.Filler = min(maxFill, rapid.IntRange(224, 240).Draw(t, "filler"))
 	}
 	cfg.Perm = rapid.Permutation(seq(comps.N)).Draw(t, "perm")
+	if cfg.Filler <= 200 && rapid.Bool().Draw(t, "lateRegistration") {
+		cfg.Late = rapid.IntRange(1, 10).Draw(t, "late")
+	}
 	return cfg
 }
 
@@ -301,6 +304,10 @@ func (g *Gen) Next(t *rapid.T) *Op {
 		op = g.genMisuse(t)
 	case "read":
 		op = g.genRead(t)
+	}
+	if op != nil && locked && opComps(op)&^m.Reg != 0 {
+		// would need to register a component type on a locked world (documented to panic): not drawn
+		return &Op{K: "stats"}
 	}
 	return op
 }
